@@ -25,8 +25,8 @@ from fractions import Fraction
 from . import core
 from .core import cq_Z, cq_bool, cq_list, cq_nat
 
-THEOREMS = ["C12_noninterference", "C12_metadata_literal", "C12_flags_matter_with_eliminable",
-            "C12_strategies_example", "C12_concrete_example"]
+THEOREMS = ["C12_noninterference", "C12_noninterference_matrix", "C12_metadata_literal",
+            "C12_flags_matter_with_eliminable", "C12_strategies_example", "C12_concrete_example", "C12_matrix_example"]
 
 FLAGS = ("unroll_loops", "inline_functions", "expand_mx")
 ATTRS = ("map_mode", "function_mode", "_expand_mx_func")
@@ -672,39 +672,160 @@ def text_points(rng, extra=()):
     return pts
 
 
+# ---- matrix stream: structured, printed to Modelica AND encoded for the Coq model -------------------------
+# function-body expressions: ["num", t] | ["acc"] (the output s) | ["x"] (scalar argument) | ["lv"] (loop variable)
+#   | ["b", idx] | ["A", ri, ci] (idx: "i" = loop variable, int = constant, ":" = whole slice, summed) | ["bin", op, a, b]
+def mpe(e, lv):
+    t = e[0]
+    if t == "num":
+        return e[1]
+    if t == "acc":
+        return "s"
+    if t == "x":
+        return "x"
+    if t == "lv":
+        return lv
+    sub = lambda d: lv if d == "i" else (":" if d == ":" else str(d))      # noqa
+    if t == "b":
+        return "b[%s]" % sub(e[1])
+    if t == "A":
+        txt = "A[%s, %s]" % (sub(e[1]), sub(e[2]))
+        return "sum(%s)" % txt if ":" in (e[1], e[2]) else txt
+    if t == "bin":
+        return "(%s %s %s)" % (mpe(e[2], lv), e[1], mpe(e[3], lv))
+    raise ValueError(t)
+
+
+def mcx(e, r, c):
+    """Coq sx of a function-body expression; slots: 0 = scalar argument x, 1 = output s; arrays: 0 = A[r, c], 1 = b[r]"""
+    t = e[0]
+    midx = lambda d: "XI" if d == "i" else ("XAll" if d == ":" else "(XK %s)" % cq_Z(d))      # noqa
+    if t == "num":
+        return "(SNum %s)" % cqc(e[1])
+    if t == "acc":
+        return "(SRef (SArg 1%nat))"
+    if t == "x":
+        return "(SRef (SArg 0%nat))"
+    if t == "lv":
+        return "(SRef SLoop)"
+    if t == "b":
+        return "(SRef (SM 1%%nat %s (XK (1)%%Z) %s 1%%nat))" % (midx(e[1]), cq_nat(r))
+    if t == "A":
+        return "(SRef (SM 0%%nat %s %s %s %s))" % (midx(e[1]), midx(e[2]), cq_nat(r), cq_nat(c))
+    if t == "bin":
+        return "(SBin %s %s %s)" % (CANODE[e[1]], mcx(e[2], r, c), mcx(e[3], r, c))
+    raise ValueError(t)
+
+
 def gen_matrix(rng):
     r, c = rng.randint(2, 3), rng.randint(2, 3)
     kc, kr = rng.randint(1, c), rng.randint(1, r)
-    row_terms = ["b[i] * sum(A[i, :])", "A[i, %d]" % kc, "sum(A[i, :]) * i", "b[i] * A[i, %d] + sum(A[i, :])" % kc,
-                 "sum(A[i, :]) - b[i]", "b[i] * sum(A[i, :]) + A[i, %d]" % kc]
-    col_terms = ["sum(A[:, j])", "A[%d, j] * j" % kr, "sum(A[:, j]) * A[1, j]", "sum(A[:, j]) - j"]
-    fn = "function g\n  input Real A[%d, %d];\n  input Real b[%d];\n  output Real s;\nalgorithm\n  s := %s;\n" % (
-        r, c, r, rng.choice(["b[1]", "b[1] + 1.5", "b[%d] * A[1, 1]" % r, "0 * b[1]"]))      # an unused input is rejected by the generator
-    loops = []
+    B = lambda d: ["b", d]                    # noqa
+    A = lambda x, y: ["A", x, y]              # noqa
+    mul = lambda x, y: ["bin", "*", x, y]     # noqa
+    add = lambda x, y: ["bin", "+", x, y]     # noqa
+    sub = lambda x, y: ["bin", "-", x, y]     # noqa
+    row_terms = [mul(B("i"), A("i", ":")), A("i", kc), mul(A("i", ":"), ["lv"]), add(mul(B("i"), A("i", kc)), A("i", ":")),
+                 sub(A("i", ":"), B("i")), add(mul(B("i"), A("i", ":")), A("i", kc))]
+    col_terms = [A(":", "i"), mul(A(kr, "i"), ["lv"]), mul(A(":", "i"), A(1, "i")), sub(A(":", "i"), ["lv"])]
+    # an unused input is rejected by the generator: b always occurs
+    init = rng.choice([B(1), add(B(1), ["num", "1.5"]), mul(B(r), A(1, 1)), mul(["num", "0"], B(1))])
+    loops = []      # (loop variable, lo, hi, new value of s)
     if rng.random() < 0.8:
-        loops.append("  for i in 1:%d loop\n    s := s %s %s;\n  end for;\n" % (r, rng.choice(["+", "-"]), rng.choice(row_terms)))
+        loops.append(["i", 1, r, ["bin", rng.choice(["+", "-"]), ["acc"], rng.choice(row_terms)]])
     if rng.random() < 0.6 or not loops:
-        loops.append("  for j in 1:%d loop\n    s := s %s %s;\n  end for;\n" % (c, rng.choice(["+", "-"]), rng.choice(col_terms)))
+        loops.append(["j", 1, c, ["bin", rng.choice(["+", "-"]), ["acc"], rng.choice(col_terms)]])
     if rng.random() < 0.3:
-        lo = rng.randint(1, 2)
-        loops.append("  for i in %d:%d loop\n    s := s * 0.5 + %s;\n  end for;\n" % (lo, r, rng.choice(row_terms)))
+        loops.append(["i", rng.randint(1, 2), r, add(mul(["acc"], ["num", "0.5"]), rng.choice(row_terms))])
     rng.shuffle(loops)
-    fn += "".join(loops) + "end g;\n"
     two = rng.random() < 0.4
+    pval = rng.choice(["2.0", "1.5", "0.5"])
+    yform = rng.choice(["", "time", "p"])
+    m = {"kind": "text", "name": "M", "stream": "matrix", "r": r, "c": c, "kr": kr, "kc": kc, "init": init, "loops": loops,
+         "two": two, "pval": pval, "yform": yform, "points": text_points(rng)}
+    # ---- Modelica text
+    fn = "function g\n  input Real A[%d, %d];\n  input Real b[%d];\n  output Real s;\nalgorithm\n  s := %s;\n" % (r, c, r, mpe(init, "i"))
+    for lv, lo, hi, e in loops:
+        fn += "  for %s in %d:%d loop\n    s := %s;\n  end for;\n" % (lv, lo, hi, mpe(e, lv))
+    fn += "end g;\n"
+    # (sum of a ROW slice outside a loop is a 1 x c row for the real generator - ca.sum1 - so h sums a column)
+    h1 = add(mul(["x"], A(kr, kc)), A(":", kc))
+    h_then, h_else = sub(["acc"], A(1, 1)), add(["acc"], ["x"])
     fn2 = ""
     if two:       # a whole-matrix argument used without a loop, and scalar elements
-        fn2 = ("function h\n  input Real A[%d, %d];\n  input Real x;\n  output Real s;\nalgorithm\n  s := x * A[%d, %d] + sum(A[%d, :]);\n"
-               "  if s > 1 then\n    s := s - A[1, 1];\n  else\n    s := s + x;\n  end if;\nend h;\n" % (r, c, kr, kc, kr))
+        fn2 = ("function h\n  input Real A[%d, %d];\n  input Real x;\n  output Real s;\nalgorithm\n  s := %s;\n"
+               "  if s > 1 then\n    s := %s;\n  else\n    s := %s;\n  end if;\nend h;\n"
+               % (r, c, mpe(h1, "i"), mpe(h_then, "i"), mpe(h_else, "i")))
     mdl = "model M\n  parameter Real p = %s;\n  Real A[%d, %d];\n  Real b[%d](each start = p, each max = 3 * p);\n  Real y;\n%s" % (
-        rng.choice(["2.0", "1.5", "0.5"]), r, c, r, "  Real y2;\n" if two else "")
-    mdl += "equation\n  y = g(A, b)%s;\n" % rng.choice(["", " + time", " * p"])
+        pval, r, c, r, "  Real y2;\n" if two else "")
+    mdl += "equation\n  y = g(A, b)%s;\n" % {"": "", "time": " + time", "p": " * p"}[yform]
     if two:
         mdl += "  y2 = h(A, y) + g(A, b);\n"
     mdl += "  for i in 1:%d loop\n    A[i, 1] = i * time;\n" % r
     for k in range(2, c + 1):
         mdl += "    A[i, %d] = b[i] + %d;\n" % (k, k)
     mdl += "    der(b[i]) = -p * b[i];\n  end for;\ninitial equation\n  for i in 1:%d loop\n    b[i] = i * p;\n  end for;\nend M;\n" % r
-    return {"kind": "text", "name": "M", "text": fn + fn2 + mdl, "stream": "matrix", "points": text_points(rng)}
+    m["text"] = fn + fn2 + mdl
+    # ---- Coq smodel: variables p=0, A=1, b=2, y=3, y2=4; array functions g=0, h=1
+    ids = {"p": 0, "A": 1, "b": 2, "y": 3, "y2": 4}
+    V = lambda n: "(SRef (SV %s))" % cq_nat(n)      # noqa
+    sym = lambda i, pref: "(C10.mkSym %s %s %s C10.TReal false)" % (cq_nat(i), cq_nat(i), pref)      # noqa
+    decls = ["(mkDecl %s None None [(SNum %s)])" % (sym(0, "[C10.Kparameter]"), cqc(pval)),
+             "(mkDecl %s (Some (ILit %s)) (Some %s) [])" % (sym(1, "[]"), cq_Z(r), cq_Z(c)),
+             "(mkDecl %s (Some (ILit %s)) None [%s; (SBin CMul (SNum %s) %s)])" % (sym(2, "[]"), cq_Z(r), V(0), cqc("3"), V(0)),
+             "(mkDecl %s None None [])" % sym(3, "[]")]
+    if two:
+        decls.append("(mkDecl %s None None [])" % sym(4, "[]"))
+    gbody = ["(TAssign 1%%nat %s)" % mcx(init, r, c)]
+    for lv, lo, hi, e in loops:
+        gbody.append("(TFor %s (ILit %s) 1%%nat %s)" % (cq_Z(lo), cq_Z(hi), mcx(e, r, c)))
+    mfuns = ["(0%%nat, mkSfun %s [1%%nat])" % cq_list(gbody)]
+    if two:
+        hb = ["(TAssign 1%%nat %s)" % mcx(h1, r, c),
+              "(TAssign 1%%nat (SIf (SBin CGt (SRef (SArg 1%%nat)) (SNum %s)) %s %s))" % (cqc("1"), mcx(h_then, r, c), mcx(h_else, r, c))]
+        mfuns.append("(1%%nat, mkSfun %s [1%%nat])" % cq_list(hb))
+    callg = "(SCallM 0%%nat 1%%nat 2%%nat (SNum %s) 0%%nat)" % cqc("0")
+    rhs = {"": callg, "time": "(SBin CAdd %s %s)" % (callg, V(TIME_ID)), "p": "(SBin CMul %s %s)" % (callg, V(0))}[yform]
+    eqs = ["(MEq %s %s)" % (V(3), rhs)]
+    if two:
+        eqs.append("(MEq %s (SBin CAdd (SCallM 1%%nat 1%%nat 2%%nat %s 0%%nat) %s))" % (V(4), V(3), callg))
+    bi = "(SRef (SL 2%nat (IOff (0)%Z)))"
+    body = ["((SRef (SL2 1%%nat (IOff (0)%%Z) (1)%%Z)), (SBin CMul (SRef SLoop) %s))" % V(TIME_ID)]
+    for k in range(2, c + 1):
+        body.append("((SRef (SL2 1%%nat (IOff (0)%%Z) %s)), (SBin CAdd %s (SNum %s)))" % (cq_Z(k), bi, cqc(str(k))))
+    body.append("((SRef (SDL 2%%nat (IOff (0)%%Z))), (SBin CMul (SNeg %s) %s))" % (V(0), bi))
+    eqs.append("(MFor (1)%%Z (ILit %s) %s)" % (cq_Z(r), cq_list(body)))
+    ieqs = ["(MFor (1)%%Z (ILit %s) [(%s, (SBin CMul (SRef SLoop) %s))])" % (cq_Z(r), bi, V(0))]
+    m["coq"] = "(mkSmodel %s (fun _ => 0%%Z) [] %s %s %s)" % (cq_list(decls), cq_list(mfuns), cq_list(eqs), cq_list(ieqs))
+    m["ids"] = ids
+    # explicit dyadic points (every variable by name; A column-major): the residuals are exact in binary64
+    dy = lambda: rng.randint(-16, 16) / 8.0      # noqa
+    m["points"] = [{"time": dy(), "p": dy(), "y": dy(), "y2": dy(), "A": [dy() for _ in range(r * c)],
+                    "b": [dy() for _ in range(r)], "der(b)": [dy() for _ in range(r)]} for _ in range(3)]
+    return m
+
+
+def encode_vcases(m, case, res, npoints=2):
+    """value-level Coq cases of an array-function model: per point the exact dae / initial residuals under each triple"""
+    out = []
+    if "combos" not in res or not all(o.get("ok") for o in res["combos"]):
+        return out
+    q = lambda x: cqc(str(Fraction(x)))      # noqa
+    ql = lambda xs: cq_list([q(x) for x in xs])      # noqa
+    for pi, pt in enumerate(m["points"][:npoints]):
+        vp = ("(mkVpoint [(999%%nat, %s); (0%%nat, %s); (3%%nat, %s); (4%%nat, %s)] [(2%%nat, %s)] [(2%%nat, %s)] [(1%%nat, (%s, %s))])"
+              % (q(pt["time"]), q(pt["p"]), q(pt["y"]), q(pt["y2"]), ql(pt["b"]), ql(pt["der(b)"]), cq_nat(m["r"]), ql(pt["A"])))
+        obs = []
+        for cmb, o in zip(case["combos"], res["combos"]):
+            vals = []
+            for fn in ("dae", "init"):
+                flat = [x for out_ in o["funcs"][fn][pi] for x in out_]
+                if any(x in ("nan", "inf", "-inf") for x in flat):
+                    return []
+                vals.append(cq_list([cqc(str(Fraction(float.fromhex(x)))) for x in flat]))
+            obs.append("(mkFlags %s %s %s, (%s, %s))" % (cq_bool(cmb[0]), cq_bool(cmb[1]), cq_bool(cmb[2]), vals[0], vals[1]))
+        out.append("(%s, %s, %s)" % (m["coq"], vp, cq_list(obs)))
+    return out
 
 
 def gen_alias(rng):
@@ -989,7 +1110,7 @@ def cq_model(m):
     decls = []
     for i, d in enumerate(m["decls"]):
         attrs = [cx(v, ids, fids) for _a, v in d["attrs"]] + ([cx(d["value"], ids, fids)] if d["value"] is not None else [])
-        decls.append("(mkDecl (C10.mkSym %s %s %s %s false) %s %s)" % (
+        decls.append("(mkDecl (C10.mkSym %s %s %s %s false) %s None %s)" % (
             cq_nat(i), cq_nat(i), cq_list([KW[p] for p in d["prefix"]]), TY[d["type"]],
             "(Some %s)" % cib(d["dim"], ids) if d["dim"] else "None", cq_list(attrs)))
     funs = []
@@ -1004,7 +1125,7 @@ def cq_model(m):
                 body.append("(TFor %s (ILit %s) %s %s)" % (cq_Z(st[1]), cq_Z(st[2]), cq_nat(st[3]), cx(st[4], ids, fids)))
         funs.append("(%s, mkSfun %s %s)" % (cq_nat(f["id"]), cq_list(body), cq_list([cq_nat(2)] + ([cq_nat(3)] if f["nout"] == 2 else []))))
     ipar = "(fun p => if Nat.eqb p %s then %s else 0%%Z)" % (cq_nat(ids["n"]), cq_Z(m["N"]))
-    return "(mkSmodel %s %s %s %s %s)" % (cq_list(decls), ipar, cq_list(funs), cq_eqs(m["eqs"], ids, fids),
+    return "(mkSmodel %s %s %s [] %s %s)" % (cq_list(decls), ipar, cq_list(funs), cq_eqs(m["eqs"], ids, fids),
                                           cq_eqs(m["ieqs"], ids, fids)), ids
 
 
@@ -1036,7 +1157,7 @@ def cq_obs(o, ids):
 
 
 def encode_case(m, case, res):
-    ms, ids = cq_model(m)
+    ms, ids = (m["coq"], m["ids"]) if "coq" in m else cq_model(m)
     obs = ["(mkFlags %s %s %s, %s)" % (cq_bool(c[0]), cq_bool(c[1]), cq_bool(c[2]), cq_obs(o, ids))
            for c, o in zip(case["combos"], res["combos"])]
     return "(%s, %s)" % (ms, cq_list(obs))
@@ -1091,6 +1212,8 @@ def corpus():
 
 # =============================================================================================
 PLAIN_FIXED = {"check_balanced": False}
+PREAMBLE = ("From Coq Require Import ZArith QArith Qcanon Arith.\nImport ListNotations.\n"
+            "From PV Require Import Model.C11_residual Model.C12_options.\nOpen Scope Qc_scope.\n")
 # second stream: simplification options that were observed not to interact with the flags
 SIMPL_FIXED = {"check_balanced": False, "replace_constant_values": True, "replace_constant_expressions": True,
                "eliminate_constant_assignments": True, "resolve_parameter_values": True,
@@ -1166,7 +1289,8 @@ def run_models(ctx, cases):
 
 
 def slim(m):
-    return {k: m[k] for k in ("kind", "name", "N", "decls", "funs", "eqs", "ieqs", "stream", "text", "points", "der_vec") if k in m}
+    return {k: m[k] for k in ("kind", "name", "N", "decls", "funs", "eqs", "ieqs", "stream", "text", "points", "der_vec",
+                              "coq") if k in m}
 
 
 def run(ctx):
@@ -1264,24 +1388,39 @@ def run(ctx):
     # (b) correspondence (first stream: the model's quantifier is "no simplification option")
     t1 = _t.time()
     enc, owner = [], []
-    for i, (m, c, r) in enumerate(zip(models, cases, results)):
+    # stream 1 and the matrix-function stream (both inside the Coq model)
+    corr = list(zip(models, cases, results)) + [t for t in zip(text_models, cases3, results3) if "coq" in t[0]]
+    for i, (m, c, r) in enumerate(corr):
         if "combos" not in r:
             continue
         enc.append(encode_case(m, c, r))
         owner.append(i)
-    bad = core.coq_eval_cases(ctx, "models",
-                              "From Coq Require Import ZArith QArith Qcanon Arith.\nImport ListNotations.\n"
-                              "From PV Require Import Model.C11_residual Model.C12_options.\nOpen Scope Qc_scope.\n",
-                              "case", enc, "check_case", shard=ctx.scaled(6, 40), timeout=1500)
+    bad = core.coq_eval_cases(ctx, "models", PREAMBLE, "case", enc, "check_case", shard=ctx.scaled(6, 40), timeout=1500)
+    # value level, array-function stream: exact residuals at dyadic points under each triple
+    venc, vowner = [], []
+    for i, (m, c, r) in enumerate(corr):
+        if m.get("stream") == "matrix":
+            for e in encode_vcases(m, c, r):
+                venc.append(e)
+                vowner.append(i)
+    vbad = core.coq_eval_cases(ctx, "values", PREAMBLE, "vcase", venc, "check_case_val", shard=ctx.scaled(6, 40), timeout=1500) if venc else []
+    ctx.oblige("correspondence:model-vs-transfer_model(exact dae / initial residual VALUES of the array-function stream) x 8 flag triples",
+               vbad == [], "mismatching models: %s" % ([vowner[j] for j in (vbad or [])][:10] if vbad is not None else "coqc failed"))
+    if vbad and not ctx.violations:
+        m_, c_, r_ = corr[vowner[vbad[0]]]
+        core.violation(ctx, "correspondence-broken",
+                       {"correspondence": "Model/C12_options.v check_case_val vs the real residuals under 8 flag triples",
+                        "input": slim(m_), "fixed": c_["fixed"], "combos": COMBOS}, no_input=True)
     ctx.notes["t_coq_s"] = round(_t.time() - t1, 1)
+    ctx.notes["coq_value_cases"] = len(venc)
     ctx.oblige("correspondence:model-vs-transfer_model(lists, delay inputs, residual lengths) x 8 flag triples", bad == [],
                "mismatching models: %s" % ([owner[j] for j in (bad or [])][:10] if bad is not None else "coqc failed"))
     if bad and not ctx.violations:
-        i = owner[bad[0]]
+        m_, c_, r_ = corr[owner[bad[0]]]
         core.violation(ctx, "correspondence-broken",
                        {"correspondence": "Model/C12_options.v check_case vs api.transfer_model under 8 flag triples",
-                        "input": slim(models[i]), "fixed": cases[i]["fixed"], "combos": COMBOS,
-                        "observed_lists": [o.get("lists") for o in results[i].get("combos", [])][:2]}, no_input=True)
+                        "input": slim(m_), "fixed": c_["fixed"], "combos": COMBOS,
+                        "observed_lists": [o.get("lists") for o in r_.get("combos", [])][:2]}, no_input=True)
 
     def still_fails(entry):
         m = dict(entry["replay"]["input"])
@@ -1303,9 +1442,10 @@ def run(ctx):
                        "same entry under (False, False, False); plus %d text-template models x 8 (matrix-argument functions with row/column "
                        "slices in for-statements; intra-array alias chains in both index orders with expand_vectors+detect_aliases "
                        "[+eliminate_constant_assignments] fixed); distinct non-trivial = distinct model texts compiled under "
-                       "all 8 combinations (%d rejected under all 8 alike); %d Coq correspondence cases (8 observations each)"
+                       "all 8 combinations (%d rejected under all 8 alike); %d Coq correspondence cases (8 observations each; the array-function stream included) + %d VALUE-level cases "
+                       "(exact dae / initial residuals of the array-function stream at dyadic points x 8 triples)"
                        % (len(models), n_corpus, n_plain, n_delay, npts, len(simpl_models),
-                          sorted(k for k in SIMPL_FIXED if k != "check_balanced"), len(text_models), rejected, len(enc)))
+                          sorted(k for k in SIMPL_FIXED if k != "check_balanced"), len(text_models), rejected, len(enc), len(venc)))
     ctx.cov["samples"] = [models[n_corpus]["text"], models[n_corpus + 1]["text"][:700]]
     ctx.notes["input_distribution"] = {"models_using": feat, "models": len(models) + len(simpl_models) + len(text_models),
                                        "text_streams": {"matrix": n_matrix, "alias": n_alias, "attr": n_attr},
@@ -1321,7 +1461,8 @@ def run(ctx):
         "the theorem covers runs without simplification option and cache (no_simpl); with expand_vectors / detect_aliases / "
         "eliminable_variable_expression the flags are read at the modelled sites but the passes are opaque "
         "(C12_expand_commutes of DESIGN.md is not proved); the second oracle stream samples the substitution options only",
-        "operators are copied one to one in the Coq model (C11's subject); user functions have two inputs; no nested calls",
+        "operators are copied one to one in the Coq model (C11's subject); user functions have two scalar inputs, or (A[r,c], b[r], x) "
+        "array inputs with for-statements over rows / columns; no nested calls; the alias and attribute text streams are oracle-only",
     ]
     if not tie_ok and not [v for v in ctx.violations if not v["no_input"]]:
         ctx.notes["search_after_broken_tie"] = "the 8-combination differential found no disagreement"
